@@ -17,6 +17,7 @@ structure St where
   full : Store := []
   cur : Store := []
   removed : List Bytes := []
+  snapped : Bool := false                       -- c17: `snap` seen; before it `get` reads the trie itself (c14)
   touched : Option Nat := none                 -- c14: version written to every stored node by the last `touch`
 
 def maxSize : Nat := 10 * 1024 * 1024
@@ -164,7 +165,7 @@ def step (s : St) (w : List String) : St × String :=
   | ["snap"] =>
     let e := entries sha3 s.t []
     let full : Store := e.2.map (fun x => (x.1, encode x.2))
-    ({ s with root := e.1, order := e.2, sizes := sizesOf s.t, full := full, cur := full, removed := [] },
+    ({ s with root := e.1, order := e.2, sizes := sizesOf s.t, full := full, cur := full, removed := [], snapped := true },
       "ok " ++ keyStr e.1 ++ " " ++ toString e.2.length)
   | ["rm", l] =>
     let idxs := (l.splitOn ",").filterMap (fun x => indexOf s x.toNat!)
@@ -180,7 +181,10 @@ def step (s : St) (w : List String) : St × String :=
   | ["miss"] => (s, missStr (ptOf s s.cur))
   | ["get", p] =>
     match parsePath p with
-    | some p => ({ s with used := pathBytes p :: s.used }, lresStr (lookupP (ptOf s s.cur) (pathBytes p)))
+    | some p =>
+      ({ s with used := pathBytes p :: s.used },
+        if s.snapped then lresStr (lookupP (ptOf s s.cur) (pathBytes p))
+        else match lookup s.t p with | some b => "ok " ++ hex b | none => "notpresent")
     | none => (s, "bad-op")
   | ["iter"] =>
     let pt := ptOf s s.cur
